@@ -451,3 +451,80 @@ package saml
 //@      return !(req.SPSSODescriptor.KeyDescriptors[k].Use == "" &&
 //@        len(req.SPSSODescriptor.KeyDescriptors[k].KeyInfo.X509Data.X509Certificates) != 0 &&
 //@        req.SPSSODescriptor.KeyDescriptors[k].KeyInfo.X509Data.X509Certificates[0].Data != "") })
+
+//@ -- Element() builders serialise a struct into an etree element (pure construction; trusted contracts:
+//@ -- what the element contains is the dependency-side half of C06/C07)
+//@ ghost func ElementOfAssertion(a *Assertion, el *etree.Element) bool
+//@ ghost func ElementOfResponse(r *Response, el *etree.Element) bool
+//@ contract (*Assertion).Element
+//@ trusted
+//@ ensures[C06] nonnil: result != nil
+//@ records built: ElementOfAssertion(a, result)
+//@ contract (*Response).Element
+//@ trusted
+//@ ensures[C06] nonnil: result != nil
+//@ records built: ElementOfResponse(r, result)
+
+//@ contract (*IdpAuthnRequest).signingContext
+//@ requires[cfg] idp: req.IDP != nil && req.IDP.Certificate != nil
+//@ requires[cfg] chain: forall(0, len(req.IDP.Intermediates), func(k int) bool { return req.IDP.Intermediates[k] != nil })
+//@ ensures[C06,C09] nonnil: err == nil ==> result != nil
+//@ -- method: configured, or RSA-SHA1 when unset
+//@ ensures[C06] method: err == nil ==> (req.IDP.SignatureMethod != "" && CtxMethod(result) == req.IDP.SignatureMethod) ||
+//@    (req.IDP.SignatureMethod == "" && CtxMethod(result) == dsig.RSASHA1SignatureMethod)
+//@ ensures[C06] signer: err == nil && req.IDP.Signer != nil ==> CtxKey(result) == req.IDP.Signer
+
+//@ contract (*IdpAuthnRequest).MakeAssertionEl
+//@ requires[cfg] idp: req.IDP != nil && req.IDP.Certificate != nil
+//@ requires[cfg] a: req.Assertion != nil && req.SPSSODescriptor != nil
+//@ requires[cfg] chain: forall(0, len(req.IDP.Intermediates), func(k int) bool { return req.IDP.Intermediates[k] != nil })
+//@ requires[cfg] rand: xmlenc.RandReader != nil
+//@ requires[cfg] cipher: xmlenc.AES128CBC != nil && xmlenc.AES128CBC.KeySize() >= 0
+//@ ensures[C06,C08,C09] set: err == nil ==> req.AssertionEl != nil
+//@ -- sign first: the element that leaves (in clear or encrypted) is built after the signature was attached
+//@ assert@call[C06] SignEnveloped #1 (ctx *dsig.SigningContext, el *etree.Element) signs_assertion: ElementOfAssertion(req.Assertion, el)
+//@ -- C08: plaintext only if there is no usable encryption key descriptor; any other certificate error is an error
+//@ assert@store[C08] AssertionEl #1 uses err error clear_only_without_key: err == os.ErrNotExist
+//@ -- otherwise what leaves is a fresh EncryptedAssertion wrapping the encryptor's output for the signed assertion
+//@ assert@store[C08] AssertionEl #2 (stored *etree.Element) uses encryptedDataEl *etree.Element, signedAssertionEl *etree.Element wrapped:
+//@    stored != nil && stored != signedAssertionEl && encryptedDataEl != nil
+//@ assert@call[C08] Encrypt #1 (enc xmlenc.RSA, cert interface{}, plaintext []byte, nonce []byte) uses certBuf *x509.Certificate encrypts_to_sp_key:
+//@    enc.BlockCipher == xmlenc.AES128CBC && certIs(cert, certBuf) && certBuf != nil
+//@ go func certIs(c interface{}, k *x509.Certificate) bool { x, ok := c.(*x509.Certificate); return ok && x == k }
+
+//@ go func valueFromSession(v string, s *Session) bool {
+//@    return v == s.UserEmail || v == s.UserCommonName || v == s.UserGivenName || v == s.UserSurname || v == s.UserName ||
+//@      v == s.EduPersonPrincipalName || v == s.UserScopedAffiliation || v == s.SubjectID ||
+//@      exists(0, len(s.Groups), func(g int) bool { return s.Groups[g] == v }) }
+//@ go func attrFromSession(a Attribute, s *Session) bool {
+//@    return forall(0, len(a.Values), func(j int) bool { return valueFromSession(a.Values[j].Value, s) }) }
+//@ ghost func sameAttrs(a, b []Attribute) bool
+
+//@ contract (DefaultAssertionMaker).MakeAssertion
+//@ requires[cfg] req: req != nil && req.IDP != nil && req.IDP.Certificate != nil && req.SPSSODescriptor != nil &&
+//@    req.ACSEndpoint != nil && req.ServiceProviderMetadata != nil && req.HTTPRequest != nil
+//@ requires[cfg] session: session != nil
+//@ requires[cfg] clock: TimeNow != nil
+//@ ensures[C06] set: err == nil ==> req.Assertion != nil && req.Assertion.Subject != nil && req.Assertion.Conditions != nil && req.Assertion.Subject.NameID != nil
+//@ ensures[C06] issuer: err == nil ==> req.Assertion.Issuer.Value == req.IDP.MetadataURL.String()
+//@ ensures[C06] nameid: err == nil ==> req.Assertion.Subject.NameID.Value == session.NameID &&
+//@    req.Assertion.Subject.NameID.SPNameQualifier == req.ServiceProviderMetadata.EntityID
+//@ -- exactly one (bearer) confirmation, addressed to the selected registered endpoint, answering this request, expiring MaxIssueDelay after issuance
+//@ ensures[C06] bearer: err == nil ==> len(req.Assertion.Subject.SubjectConfirmations) == 1 &&
+//@    req.Assertion.Subject.SubjectConfirmations[0].Method == "urn:oasis:names:tc:SAML:2.0:cm:bearer" &&
+//@    req.Assertion.Subject.SubjectConfirmations[0].SubjectConfirmationData != nil &&
+//@    req.Assertion.Subject.SubjectConfirmations[0].SubjectConfirmationData.Recipient == req.ACSEndpoint.Location &&
+//@    req.Assertion.Subject.SubjectConfirmations[0].SubjectConfirmationData.InResponseTo == req.Request.ID &&
+//@    ns(req.Assertion.Subject.SubjectConfirmations[0].SubjectConfirmationData.NotOnOrAfter) == ns(req.Now)+int64(MaxIssueDelay)
+//@ ensures[C06] audience: err == nil ==> len(req.Assertion.Conditions.AudienceRestrictions) == 1 &&
+//@    req.Assertion.Conditions.AudienceRestrictions[0].Audience.Value == req.ServiceProviderMetadata.EntityID
+//@ ensures[C06] not_before: err == nil ==> ns(req.Assertion.Conditions.NotBefore) >= ns(req.Now)-int64(MaxClockSkew)
+//@ ensures[C06] one_statement: err == nil ==> len(req.Assertion.AttributeStatements) == 1 && len(req.Assertion.AuthnStatements) == 1 &&
+//@    req.Assertion.AuthnStatements[0].SessionIndex == session.Index
+//@ -- every attribute value that is added comes from the authenticated session (or is one of its custom attributes)
+//@ assert@call[C06] append #0 (dst []Attribute, src []Attribute) only_session_attributes:
+//@    sameAttrs(src, session.CustomAttributes) || forall(0, len(src), func(k int) bool { return attrFromSession(src[k], session) })
+//@ assert@call[C06] append #0 (dst []AttributeValue, src []AttributeValue) only_session_groups:
+//@    forall(0, len(src), func(k int) bool { return valueFromSession(src[k].Value, session) })
+//@ loop 3 vars groupMemberAttributeValues []AttributeValue
+//@ invariant[C06] groups_only: forall(0, len(groupMemberAttributeValues), func(k int) bool { return valueFromSession(groupMemberAttributeValues[k].Value, session) })
